@@ -238,6 +238,12 @@ def gen_plan(rng):
         steps.append({"op": "symlink", "path": link["path"], "target": link["target"]})
     cfg = {"nlibs": rng.randint(1, 4), "nest": rng.random() < 0.6, "faults": rng.random() < 0.35,
            "decoys": rng.random() < 0.8, "edits": rng.random() < 0.3, "planted": rng.random() < 0.12}
+    # "includes nested to any depth": most runs stay shallow (<= 3 levels), one in seven is a
+    # chain of up to six libraries, each including (mostly) the one before it
+    cfg["maxdepth"] = 3
+    if cfg["nest"] and rng.random() < 0.15:
+        cfg["maxdepth"] = rng.choice([4, 5, 6])
+        cfg["nlibs"] = rng.randint(cfg["maxdepth"], 6)
     libs = []      # {"name","path","depth"}
     used_paths = set()
     for j in range(cfg["nlibs"]):
@@ -248,9 +254,15 @@ def gen_plan(rng):
         used_paths.add(path)
         name = "Sub%d" % j
         nested = []
-        if cfg["nest"] and libs and rng.random() < 0.7:
-            cands = [l for l in libs if l["depth"] < 3]
-            if cands:
+        if cfg["nest"] and libs and rng.random() < (0.7 if cfg["maxdepth"] == 3 else 0.95):
+            cands = [l for l in libs if l["depth"] < cfg["maxdepth"]]
+            if cands and cfg["maxdepth"] > 3:
+                # deep chains: prefer the deepest library so far
+                deepest = max(l["depth"] for l in cands)
+                nested = [rng.choice([l for l in cands if l["depth"] == deepest])]
+                if len(cands) > 1 and rng.random() < 0.2:
+                    nested.append(rng.choice([l for l in cands if l is not nested[0]]))
+            elif cands:
                 nested = rng.sample(cands, 1 if rng.random() < 0.8 else min(2, len(cands)))
         params = rng.sample(PARAMS, rng.choice([0, 0, 1, 1, 2, 3]))
         modes_pool = list(rng.choice(MODE_SETS))
